@@ -180,6 +180,16 @@ segmentation x caller read plan), run through send() on a scripted transport; no
                 }
                 Err(e) => return Outcome::fail("C01:text-error", format!("text_utf8 failed: {e}")),
             },
+            Consumed::Json(r) => {
+                // only meaningful when the payload is a JSON document
+                if let Ok(want) = serde_json::from_slice::<serde_json::Value>(&payload) {
+                    match r {
+                        Ok(v) if v == want => ctx.label("json-helper"),
+                        Ok(v) => return Outcome::fail("C01:json-mismatch", format!("{v} vs {want}")),
+                        Err(e) => return Outcome::fail("C01:json-error", format!("json() failed on a complete well-formed body: {e}")),
+                    }
+                }
+            }
         }
         // no byte from beyond the frame may be *needed*; the transport may have been read ahead (buffering is fine),
         // what matters is what was delivered, which was compared above.
